@@ -881,7 +881,8 @@ static void mps_set_bound (
 	else if (!strcmp (bndtype, "UI"))
 	{
 		msg = EGLPNUM_TYPENAME_ILLraw_set_upperBound (lp, colind, bnd);
-		if (msg == NULL)
+		/* a mere warning ("0.0 upper bound fixes variable") still sets the bound */
+		if (msg == NULL || strcmp (msg, "Using previous bound definition.") != 0)
 		{
 			lp->intmarker[colind] = 1;
 		}
